@@ -188,7 +188,7 @@ def check_single_instance(ctx: Ctx):
         def external_call(self, name, args, kwargs, node):
             from .arrdom import Reduction
 
-            if name.endswith("_get_paired_crop"):
+            if self.prog.is_anchor(name, "_functionals:_get_paired_crop"):
                 self.root.crop_args = list(args) + list(kwargs.values())
                 return Sym("CROP")
             if name in ("numpy.sum", "numpy.count_nonzero") and len(args) == 1 and not kwargs and isinstance(args[0], AMask):
